@@ -457,6 +457,8 @@ def compute_truncation_helper(
 def compute_right_axis(
     h: float, levy_measure: LevyMeasure, minimum_probability_step: float
 ):
+    if not minimum_probability_step > 0:
+        raise ValueError("expected minimum_probability_step > 0")
     intensity_of_jumps = levy_measure.integrate(
         -np.inf, -h / 2
     ) + levy_measure.integrate(h / 2, np.inf)
@@ -510,6 +512,8 @@ def compute_right_axis(
 def compute_left_axis(
     h: float, levy_measure: LevyMeasure, minimum_probability_step: float
 ):
+    if not minimum_probability_step > 0:
+        raise ValueError("expected minimum_probability_step > 0")
     intensity_of_jumps = levy_measure.integrate(
         -np.inf, -h / 2
     ) + levy_measure.integrate(h / 2, np.inf)
